@@ -799,7 +799,7 @@ class Guard:
         return "<guard %s %s @%d>" % (root_str(self.root), sorted(self.labels) if self.truth is None else self.truth, self.line)
 
 
-def guards_of(model, fn, site_block, mode="value"):
+def guards_of(model, fn, site_block, mode="value", _thread=True):
     """dominating branch conditions of `site_block` (nearest first). See DESIGN Appendix B.1:
     for every dominator d that ends in a switch, the labels through which the site can be reached
     without passing d again; kept only if that is a proper subset of d's labels."""
@@ -833,6 +833,31 @@ def guards_of(model, fn, site_block, mode="value"):
             neg = not neg
             r = r[1]
         out.append(Guard(fn, d, ok, [v for v in all_labels if v in real], r, neg))
+    # jump threading for `matches!(x, P)` / `a || b` temporaries: a switch on a local whose only
+    # definitions are boolean constants tells which definition block was executed last; if exactly
+    # one definition has the required value, the guards of that block hold at the site as well
+    if _thread:
+        extra = []
+        have = {g.b for g in out}
+        for g in out:
+            r = g.root
+            if r[0] == "local" and g.truth is not None:
+                ds = fn.defs().get(r[1], [])
+                vals = []
+                for bi, si, kind, payload in ds:
+                    if kind == "assign" and payload[0] == "use" and payload[1][0] == "k" and payload[1][1].get("ty") == "bool":
+                        vals.append((bi, bool(int(payload[1][1]["int"]))))
+                    else:
+                        vals = None
+                        break
+                if vals:
+                    want = [bi for bi, v in vals if v == g.truth]
+                    if len(want) == 1 and fn.dominates(want[0], site_block) is False:
+                        for g2 in guards_of(model, fn, want[0], mode, _thread=False):
+                            if g2.b not in have:
+                                have.add(g2.b)
+                                extra.append(g2)
+        out += extra
     return out
 
 
